@@ -499,3 +499,155 @@ Proof.
   - apply decrypt_temp_peer; try assumption; try apply Or; rewrite Hr; [lia|exact Hal|exact NC].
 Qed.
 End RoundTrip.
+
+(* ------------------------------------------------------------------------------------------ *)
+(* TryDecryptMessageWithTempKeys: total (no panic for ANY input) and an exact acceptance condition *)
+
+Lemma copy_into_length (dst src : bytes) off : off <= length dst -> length (copy_into dst off src) = length dst.
+Proof.
+  intros Ho. unfold copy_into. rewrite !app_length, !firstn_length, skipn_length. lia.
+Qed.
+
+Ltac ci_len := rewrite ?zbuf_length; first [lia | rewrite copy_into_length; [ci_len | ci_len]].
+
+Lemma is_correct_data_false_inv (data : bytes) :
+  is_correct_data data = false -> length data = 0 \/ Nat.modulo (length data) 16 <> 0.
+Proof.
+  unfold is_correct_data. intros Hf. apply andb_false_iff in Hf as [Hf|Hf].
+  - apply Nat.leb_gt in Hf. destruct (length data) as [|n] eqn:E; [now left|right].
+    rewrite Nat.mod_small by lia. lia.
+  - right. now apply Nat.eqb_neq.
+Qed.
+
+Section TryDecrypt.
+Variable H : bytes -> bytes.
+Variable D : bytes -> bytes -> bytes.
+
+(* the trim loop: never a panic; Ok exactly for the first cut (fewest bytes removed) whose hash matches *)
+Lemma try_cuts_err_no_panic hash m : forall fuel j, try_cuts_err H fuel j hash m <> Panic.
+Proof.
+  induction fuel as [|f IH]; intros j; cbn [try_cuts_err]; [discriminate|].
+  destruct (length m <? j); [discriminate|].
+  destruct (beq hash (H (firstn (length m - j) m))); [discriminate|apply IH].
+Qed.
+
+Lemma try_cuts_err_ok hash m : forall fuel j c, try_cuts_err H fuel j hash m = Ok c ->
+  exists i, j <= i < j + fuel /\ i <= length m /\ c = firstn (length m - i) m /\ H c = hash /\
+            (forall i', j <= i' < i -> H (firstn (length m - i') m) <> hash).
+Proof.
+  induction fuel as [|f IH]; intros j c; cbn [try_cuts_err]; [discriminate|].
+  destruct (Nat.ltb_spec (length m) j) as [Hl|Hl]; [discriminate|].
+  destruct (beq_spec hash (H (firstn (length m - j) m))) as [Heq|Hne].
+  - intros Hc. apply Ok_inj in Hc. subst c. exists j. repeat split; auto; try (intros; lia).
+  - intros Hc. destruct (IH (S j) c Hc) as (i & Hi & Hil & Hci & Hh & Hmin).
+    exists i. split; [lia|]. split; [exact Hil|]. split; [exact Hci|]. split; [exact Hh|]. intros i' Hi'.
+    destruct (Nat.eq_dec i' j) as [->|Hn]; [congruence|]. apply Hmin. lia.
+Qed.
+
+Lemma try_cuts_err_err hash m : forall fuel j, try_cuts_err H fuel j hash m = Err ->
+  forall i, j <= i < j + fuel -> i <= length m -> H (firstn (length m - i) m) <> hash.
+Proof.
+  induction fuel as [|f IH]; intros j He i Hi Hil; [lia|]. cbn [try_cuts_err] in He.
+  destruct (Nat.ltb_spec (length m) j) as [Hl|Hl]; [lia|].
+  destruct (beq_spec hash (H (firstn (length m - j) m))) as [Heq|Hne]; [discriminate|].
+  destruct (Nat.eq_dec i j) as [->|Hn]; [congruence|]. apply (IH (S j) He); lia.
+Qed.
+
+Hypothesis H_len : forall m, length (H m) = 20.
+
+(* key and iv are 32 bytes for ANY pair of big.Int values (zero, short, oversize) *)
+Lemma generate_temp_keys_total_len n1 n2 :
+  exists k iv, generate_temp_keys H n1 n2 = Ok (k, iv) /\ length k = 32 /\ length iv = 32.
+Proof.
+  unfold generate_temp_keys.
+  assert (L : 32 <= length (fixed_bytes 32 n1)).
+  { unfold fixed_bytes. destruct (Nat.leb_spec 32 (length (big_bytes n1))); [assumption|].
+    rewrite app_length, repeat_length. lia. }
+  rewrite !gslice_ok by (rewrite ?H_len; lia). cbn [obind].
+  eexists. eexists. split; [reflexivity|].
+  split; ci_len.
+Qed.
+
+Hypothesis D_len : forall k b, length (D k b) = 16.
+
+(* doAES256IGEdecrypt into a fresh buffer of the same length, 32-byte key and iv: error or success, never a panic *)
+Lemma do_decrypt_fresh key iv msg : length key = 32 -> length iv = 32 ->
+  (is_correct_data msg = false /\ do_decrypt D msg (zbuf (length msg)) key iv = (Failed, zbuf (length msg), msg)) \/
+  (is_correct_data msg = true /\ do_decrypt D msg (zbuf (length msg)) key iv = (Done, ige_decrypt D key iv msg, msg) /\
+   length (ige_decrypt D key iv msg) = length msg).
+Proof.
+  intros Lk Liv. destruct (is_correct_data msg) eqn:Hc.
+  - right. split; [reflexivity|]. apply is_correct_data_iff in Hc as (n & Hn & Hl).
+    rewrite (do_decrypt_is_ige D D_len key iv msg (zbuf (length msg)) n (key_len_ok_32 key Lk) Liv Hl Hn)
+      by (rewrite zbuf_length; lia).
+    rewrite skipn_all2 by (rewrite zbuf_length; lia). rewrite app_nil_r.
+    split; [reflexivity|]. apply (ige_decrypt_length D D_len key iv msg n Liv Hl).
+  - left. split; [reflexivity|].
+    destruct (do_encrypt_rejects_err D D key iv msg (zbuf (length msg)) (key_len_ok_32 key Lk) ltac:(lia)
+                (is_correct_data_false_inv msg Hc)) as [_ Hd]. exact Hd.
+Qed.
+
+(* TryDecryptMessageWithTempKeys, for EVERY input (no premise on the ciphertext or on the nonces):
+   - never panics;
+   - returns m exactly when the length is a positive multiple of 16, at least 20, and m is the decrypted
+     body with the fewest trailing bytes (0..15) removed such that SHA1(m) equals the first 20 decrypted bytes;
+   - returns an error exactly when the length is bad or no cut of 0..15 bytes matches. *)
+Theorem trydec_temp_spec msg n1 n2 :
+  exists key iv, generate_temp_keys H n1 n2 = Ok (key, iv) /\
+  let dec := ige_decrypt D key iv msg in
+  let body := skipn 20 dec in
+  match trydec_temp H D msg n1 n2 with
+  | Panic => False
+  | Ok m => is_correct_data msg = true /\ 20 <= length msg /\
+            exists i, i <= 15 /\ i <= length msg - 20 /\ m = firstn (length msg - 20 - i) body /\
+                      H m = firstn 20 dec /\
+                      (forall i', i' < i -> H (firstn (length msg - 20 - i') body) <> firstn 20 dec)
+  | Err => is_correct_data msg = false \/ length msg < 20 \/
+           (forall i, i <= 15 -> i <= length msg - 20 -> H (firstn (length msg - 20 - i) body) <> firstn 20 dec)
+  end.
+Proof.
+  destruct (generate_temp_keys_total_len n1 n2) as (key & iv & Hg & Lk & Liv).
+  exists key, iv. split; [exact Hg|]. cbv zeta. unfold trydec_temp. rewrite Hg. cbn [obind fst snd].
+  destruct (do_decrypt_fresh key iv msg Lk Liv) as [[Hc Hd]|(Hc & Hd & Ll)]; rewrite Hd; cbn [returned obind].
+  - left. exact Hc.
+  - set (dec := ige_decrypt D key iv msg) in *.
+    destruct (Nat.ltb_spec (length dec) 20) as [Hs|Hs]; [right; left; lia|].
+    rewrite !gslice_ok by lia. cbn [obind]. change (20 - 0) with 20. rewrite skipn_O.
+    rewrite (firstn_all2 (skipn 20 dec)) by (rewrite skipn_length; lia).
+    assert (Lb : length (skipn 20 dec) = length msg - 20) by (rewrite skipn_length; lia).
+    destruct (try_cuts_err H 16 0 (firstn 20 dec) (skipn 20 dec)) as [m| |] eqn:Ht.
+    + destruct (try_cuts_err_ok _ _ _ _ _ Ht) as (i & Hi & Hil & Hm & Hh & Hmin).
+      rewrite Lb in *. split; [exact Hc|]. split; [lia|].
+      exists i. repeat split; try lia; auto. intros i' Hi'. apply Hmin. lia.
+    + right. right. intros i Hi Hil. rewrite <- Lb. apply (try_cuts_err_err _ _ _ _ Ht); lia.
+    + exact (try_cuts_err_no_panic _ _ _ _ Ht).
+Qed.
+
+Corollary trydec_temp_no_panic msg n1 n2 : trydec_temp H D msg n1 n2 <> Panic.
+Proof.
+  destruct (trydec_temp_spec msg n1 n2) as (k & iv & _ & Hs). cbv zeta in Hs.
+  intros Hp. rewrite Hp in Hs. exact Hs.
+Qed.
+End TryDecrypt.
+
+Lemma try_cuts_checked H hash m : forall fuel j,
+  try_cuts H fuel j hash m = match try_cuts_err H fuel j hash m with Ok c => Ok c | _ => Panic end.
+Proof.
+  induction fuel as [|f IH]; intros j; cbn [try_cuts try_cuts_err]; [reflexivity|].
+  destruct (length m <? j); [reflexivity|].
+  destruct (beq hash (H (firstn (length m - j) m))); [reflexivity|apply IH].
+Qed.
+
+(* DecryptMessageWithTempKeys = check(err) around TryDecryptMessageWithTempKeys *)
+Lemma decrypt_temp_is_checked_try H D msg n1 n2 : (forall m, length (H m) = 20) ->
+  decrypt_temp H D msg n1 n2 = match trydec_temp H D msg n1 n2 with Ok m => Ok m | _ => Panic end.
+Proof.
+  intros H_len. unfold decrypt_temp, trydec_temp.
+  destruct (generate_temp_keys_total H H_len n1 n2) as (k & iv & ->). cbn [obind fst snd].
+  destruct (do_decrypt D msg (zbuf (length msg)) k iv) as [[st dec] inp].
+  destruct st; cbn [checked returned obind]; try reflexivity.
+  destruct (Nat.ltb_spec (length dec) 20) as [Hl|Hl].
+  - unfold gslice at 1. destruct (Nat.leb_spec 20 (length dec)); [lia|]. rewrite andb_false_r. reflexivity.
+  - rewrite !gslice_ok by lia. cbn [obind].
+    apply try_cuts_checked.
+Qed.
